@@ -3,5 +3,5 @@ CONSTANTS
   B = 3
   Shapes <- ShapesQ
   DEV_EmptyFinalBatch = FALSE
-INVARIANTS TypeOK OrderInv OneLinePerCoordInv StatusInv EmptyInputInv BatchInv InvarianceInv RunsInv FailedLinesInv Emit
+INVARIANTS TypeOK OrderInv OneLinePerCoordInv StatusInv EmptyInputInv BatchInv InvarianceInv RunsInv FailedLinesInv RefusalInv Emit
 CHECK_DEADLOCK FALSE
